@@ -1,10 +1,9 @@
 #!/bin/bash
 # Runs seeded_eval.sh over every seeded change (or the ids given), one after another.
-cd /verif
+cd "$(dirname "$0")/.."
 IDS=${@:-$(ls seeded | grep -E '^C[0-9]+-')}
 for id in $IDS; do
   echo "##### $id $(date +%T)"
   bash engine/seeded_eval.sh $id ${TIER:-quick} > /dev/null 2>&1
   tail -4 seeded/$id/eval.txt
-  rm -rf /tmp/seed-target-${id%%-*}
 done
